@@ -169,9 +169,32 @@ func (e *foldEnv) fold(v ssa.Value) (string, bool) {
 				if s, has := e.vals[fv]; has {
 					return s, true
 				}
+				// a variable of the enclosing function that is assigned once: fold what it was given there
+				if b := freeVarBinding(fv); b != nil {
+					if cell, isCell := b.(*ssa.Alloc); isCell {
+						if sv := singleStore(cell); sv != nil {
+							return e.fold(sv)
+						}
+					}
+				}
+			}
+			if cell, isCell := x.X.(*ssa.Alloc); isCell {
+				if sv := singleStore(cell); sv != nil {
+					return e.fold(sv)
+				}
+			}
+		}
+	case *ssa.FreeVar:
+		if b := freeVarBinding(x); b != nil {
+			if _, isCell := b.(*ssa.Alloc); !isCell {
+				return e.fold(b)
 			}
 		}
 	case *ssa.Call:
+		// the controller's type name: a placeholder, the table is compared for the resource called "resource"
+		if n := calleeName(x); strings.HasSuffix(n, ".Name") && (strings.Contains(n, "reflect.") || x.Call.IsInvoke()) {
+			return "Resource", true
+		}
 		switch calleeName(x) {
 		case "strings.ToLower":
 			s, ok := e.fold(x.Call.Args[0])
@@ -588,14 +611,24 @@ func ruleC16Only(r *Run) {
 			continue
 		}
 		okRoute := false
-		var leaves []ssa.Value
-		if ph, ok := a[0].(*ssa.Phi); ok {
-			leaves = ph.Edges
-		} else {
-			leaves = []ssa.Value{a[0]}
-		}
+		leaves := valueLeaves(a[0])
 		okRoute = len(leaves) > 0
 		for _, lf := range leaves {
+			if isNilConst(lf) {
+				// "no route for this action" merged in: fine where the call is guarded by route != nil
+				guarded := factHolds(in, func(cond ssa.Value, truth bool) bool {
+					b, ok := cond.(*ssa.BinOp)
+					if !ok || (b.Op != token.EQL && b.Op != token.NEQ) {
+						return false
+					}
+					subj := (b.X == a[0] && isNilConst(b.Y)) || (b.Y == a[0] && isNilConst(b.X))
+					return subj && truth == (b.Op == token.NEQ)
+				})
+				if !guarded {
+					okRoute = false
+				}
+				continue
+			}
 			cc, ok := lf.(*ssa.Call)
 			if !ok || staticCallee(cc) != addNamed {
 				okRoute = false
